@@ -125,7 +125,25 @@ pub fn run(sc: &C24Scenario) -> Result<Outcome, String> {
     // Reference: identity order, hash seed 1, fresh process, pristine tree.
     let refv = Variant { hashseed: 1, perm_seed: None, warm: false };
     let r = run_pair(&mut w, &refv)?;
-    if r.panicked.is_some() || r.build_exit != Some(0) {
+    if r.panicked.is_some() {
+        return Ok(Outcome { violation: None, skipped: Some("project-not-error-free"), perm_fired: false });
+    }
+    if r.build_exit != Some(0) {
+        // Not error-free in the reference order. If the very same sources build cleanly under
+        // the variant's order or hash seed, being error-free is itself order dependent.
+        if !sc.variant.warm {
+            w.restore(&pristine);
+            w.now = now0;
+            w.cmd_count = count0 + 100;
+            let v = run_pair(&mut w, &sc.variant)?;
+            if v.panicked.is_none() && v.build_exit == Some(0) && (sc.variant.perm_seed.is_some() || sc.variant.hashseed != 1) {
+                return Ok(Outcome {
+                    violation: Some(("exit".to_string(), format!("the build fails in the reference order and seed ({}) but succeeds under this variant", r.stderr_tail.lines().find(|l| l.contains("Error")).unwrap_or("").trim()))),
+                    skipped: None,
+                    perm_fired: v.perm_fired,
+                });
+            }
+        }
         return Ok(Outcome { violation: None, skipped: Some("project-not-error-free"), perm_fired: false });
     }
     let prec = precedence(&w);
